@@ -53,7 +53,7 @@ PROFILE = {
     "p_bad": 0.28,
     "p_raw": 0.05,
     "n_ops": (4, 12),
-    "w": {"update": 5, "transform": 4, "set": 3, "del": 2, "eadd": 5, "eupd": 3, "etr": 3, "undeclared": 1, "alias": 1, "rollback_probe": 4, "reset": 2},
+    "w": {"update": 5, "transform": 4, "set": 3, "del": 2, "eadd": 5, "eupd": 3, "etr": 3, "undeclared": 1, "alias": 1, "rollback_probe": 4, "reset": 2, "nested_probe": 3},
 }
 
 
@@ -210,6 +210,132 @@ def _extra_states(K):
     return [("plain", plain), ("cached", cached), ("overridden", overridden), ("limit set", with_limit)]
 
 
+
+# ---------------------------------------------------------------------------
+# extra (2): failing operations on KeyedList / KeyedSet attributes and on the containers themselves
+# (keyed containers are outside the heap model's grammar, see docs/Heap.md; anchored in types/keyed.py;
+#  real code + snapshot oracle; the snapshot includes the key index: C04-r2s1)
+# ---------------------------------------------------------------------------
+
+
+def _keyed_ns():
+    from spec_classes import spec_class
+    from spec_classes.types import KeyedList, KeyedSet
+
+    @spec_class(key="k", bootstrap=True)
+    class It:
+        k: str
+        v: int = 0
+
+    @spec_class(bootstrap=True)
+    class Holder:
+        items: KeyedList[It, str]
+        members: KeyedSet[It, str]
+
+    return It, Holder, KeyedList, KeyedSet
+
+
+def _keyed_view(kl):
+    """What a user sees through the KEY interface of a KeyedList / KeyedSet (ids of the items found)."""
+    out = []
+    d = kl.__dict__
+    if "_list" in d:
+        out.append(("keys", tuple(kl.keys())))
+        for pos, it in enumerate(list(kl)):
+            k = kl.key(it)
+            try:
+                found = id(kl[k])
+            except BaseException as e:  # noqa: BLE001
+                found = "raises " + type(e).__name__
+            try:
+                at = kl.index_for_key(k)
+            except BaseException as e:  # noqa: BLE001
+                at = "raises " + type(e).__name__
+            out.append((pos, repr(k), id(it), found, at, k in kl))
+    else:
+        for it in list(kl):
+            k = kl.key(it)
+            try:
+                found = id(kl[k])
+            except BaseException as e:  # noqa: BLE001
+                found = "raises " + type(e).__name__
+            out.append((repr(k), id(it), found, k in kl, it in kl))
+        out.sort(key=repr)
+    return tuple(out)
+
+
+def _keyed_calls(It, n):
+    """(label, fn(holder) -> call result, argument objects) over every position / key of a holder with n items."""
+    keys = [chr(ord("a") + i) for i in range(n)]
+    out = []
+
+    def add(label, fn, *args):
+        out.append((label, fn, list(args)))
+
+    for ip in (True, False):
+        t = f" ip={int(ip)}"
+        for i in list(range(-n - 1, n + 1)):
+            for j, other in enumerate(keys):
+                item = It(other, v=5)
+                add(f"with_item(It({other!r}), _index={i}){t}", lambda h, item=item, i=i, ip=ip: h.with_item(item, _index=i, _inplace=ip), item)
+                add(f"with_item(It({other!r}), _index={i}, _insert=True){t}", lambda h, item=item, i=i, ip=ip: h.with_item(item, _index=i, _insert=True, _inplace=ip), item)
+                add(f"update_item({i}, k={other!r}, _by_index=True){t}", lambda h, i=i, other=other, ip=ip: h.update_item(i, k=other, _by_index=True, _inplace=ip))
+                add(f"transform_item({i}, ->It({other!r}), _by_index=True){t}", lambda h, i=i, item=item, ip=ip: h.transform_item(i, lambda _v: item, _by_index=True, _inplace=ip), item)
+            add(f"with_item(3, _index={i}){t}", lambda h, i=i, ip=ip: h.with_item(3, _index=i, _inplace=ip))
+            add(f"update_item({i}, v='x', _by_index=True){t}", lambda h, i=i, ip=ip: h.update_item(i, v="x", _by_index=True, _inplace=ip))
+            add(f"transform_item({i}, boom, _by_index=True){t}", lambda h, i=i, ip=ip: h.transform_item(i, _boom, _by_index=True, _inplace=ip))
+            add(f"without_item({i}, _by_index=True){t}", lambda h, i=i, ip=ip: h.without_item(i, _by_index=True, _inplace=ip))
+        for key in keys + ["zz"]:
+            for other in keys:
+                item = It(other, v=6)
+                add(f"with_item(It({other!r}), _index={key!r}){t}", lambda h, item=item, key=key, ip=ip: h.with_item(item, _index=key, _inplace=ip), item)
+                add(f"update_item({key!r}, k={other!r}){t}", lambda h, key=key, other=other, ip=ip: h.update_item(key, k=other, _inplace=ip))
+                add(f"transform_item({key!r}, ->It({other!r})){t}", lambda h, key=key, item=item, ip=ip: h.transform_item(key, lambda _v: item, _inplace=ip), item)
+                add(f"update_member({key!r}, k={other!r}){t}", lambda h, key=key, other=other, ip=ip: h.update_member(key, k=other, _inplace=ip))
+            add(f"update_item({key!r}, v='x'){t}", lambda h, key=key, ip=ip: h.update_item(key, v="x", _inplace=ip))
+            add(f"transform_item({key!r}, boom){t}", lambda h, key=key, ip=ip: h.transform_item(key, _boom, _inplace=ip))
+            add(f"transform_item({key!r}, v=boom){t}", lambda h, key=key, ip=ip: h.transform_item(key, v=_boom, _inplace=ip))
+            add(f"without_item({key!r}){t}", lambda h, key=key, ip=ip: h.without_item(key, _inplace=ip))
+            add(f"update_member({key!r}, v='x'){t}", lambda h, key=key, ip=ip: h.update_member(key, v="x", _inplace=ip))
+            add(f"transform_member({key!r}, boom){t}", lambda h, key=key, ip=ip: h.transform_member(key, _boom, _inplace=ip))
+            add(f"transform_member({key!r}, ->3){t}", lambda h, key=key, ip=ip: h.transform_member(key, lambda _v: 3, _inplace=ip))
+            add(f"without_member({key!r}){t}", lambda h, key=key, ip=ip: h.without_member(key, _inplace=ip))
+        add(f"with_member(3){t}", lambda h, ip=ip: h.with_member(3, _inplace=ip))
+        add(f"with_items([It('q'), It('q')]){t}", lambda h, ip=ip: h.with_items([It("q"), It("q")], _inplace=ip))
+        add(f"with_items([It('q'), 3]){t}", lambda h, ip=ip: h.with_items([It("q"), 3], _inplace=ip))
+        add(f"with_members([It('q'), 3]){t}", lambda h, ip=ip: h.with_members([It("q"), 3], _inplace=ip))
+        add(f"update(v-less items=[It('q')], members=3){t}", lambda h, ip=ip: h.update(items=[It("q")], members=3, _inplace=ip))
+    # (operations on the containers themselves -- items[i] = x, extend, |= ... -- are not spec-class API calls: their
+    #  atomicity is C13's / C14's statement and is judged there, not here)
+    return out
+
+
+def _keyed_extra():
+    It, Holder, KeyedList, KeyedSet = _keyed_ns()
+    evaluations, violations, keys = 0, [], []
+    for n in range(0, 4):
+        def mk(n=n):
+            return Holder(items=[It(chr(ord("a") + i), v=i) for i in range(n)], members=[It(chr(ord("a") + i), v=i) for i in range(n)])
+        for label, fn, args in _keyed_calls(It, n):
+            h = mk()
+            before = (H.deep_snapshot(h), _keyed_view(h.items), _keyed_view(h.members), [H.deep_snapshot(a) for a in args])
+            try:
+                fn(h)
+            except BaseException as e:  # noqa: BLE001
+                evaluations += 1
+                keys.append((n, label.split("(")[0].split(" ")[0], type(e).__name__, label))
+                after = (H.deep_snapshot(h), _keyed_view(h.items), _keyed_view(h.members), [H.deep_snapshot(a) for a in args])
+                if after != before:
+                    what = [w for w, a, b in zip(("receiver (incl. key index)", "key view of items", "key view of members", "arguments"), before, after) if a != b]
+                    violations.append(
+                        {
+                            "case": {"extra": "keyed", "n_items": n, "call": label},
+                            "violation": [f"{label} on a holder with {n} item(s) raised {H.exc_name(e)} but changed: {what}"],
+                        }
+                    )
+    return evaluations, violations, keys
+
+
 def extra(tier, rng):
     ns = _extra_ns()
     K = ns["K"]
@@ -230,12 +356,17 @@ def extra(tier, rng):
                             "violation": [f"{label} on a `{sname}` instance raised {H.exc_name(e)} but changed the instance"],
                         }
                     )
+    n_inv = evaluations
+    ev2, viol2, keys2 = _keyed_extra()
+    evaluations += ev2
+    violations += viol2
+    keys += keys2
     return {
         "evaluations": evaluations,
         "nontrivial": keys,
         "violations": violations,
         "disagreements": [],
-        "info": {"failing_calls_on_classes_with_invalidated_by": evaluations},
+        "info": {"failing_calls_on_classes_with_invalidated_by": n_inv, "failing_calls_on_keyed_attributes_and_containers": ev2},
     }
 
 
